@@ -140,7 +140,9 @@ def run_item(item):
     scale = scale_of(box)
     h = 1e-3 * scale
     var, dim = G.space_vars(a)[0]
-    lvs = [lf for lf, _ in G.leaves(a)]
+    _lv = G.leaves(a)
+    lvs = [lf for lf, _ in _lv]
+    dict_maps = {id(lf): mp for lf, mp in _lv}
     flav = "+".join(sorted(leaf_flavors(a)))
 
     def judge(pts, prm_vals, tag, Dn=None, with_params=True):
@@ -162,6 +164,13 @@ def run_item(item):
             elif lf["k"] == "poly":
                 for vv in lf["verts"] + [p for hh in lf["holes"] for p in hh]:
                     nearv |= np.linalg.norm(pts - np.asarray(vv), axis=1) <= 3 * h
+            elif lf["k"] == "mesh":
+                # edges of the polyhedron (outwardness is two-valued there); points in the leaf's own frame
+                from ..ref import poly3d
+                v_ = vals
+                for mp in dict_maps[id(lf)]:
+                    v_ = G.pullback(mp, v_)
+                nearv |= poly3d.edge_dist(*poly3d.SHAPES[lf["shape"]], v_[var]) <= 3 * h
         judged = on & (close <= 1) & ~nearv
         P = Bd.points_of(vals, [var])
         R = Bd.points_of(vals, fv)
